@@ -232,6 +232,33 @@ def run_load(c):
             "details": details[:10], "trailers": tr, "payload_lens": payload_lens, "full_payload": full_payload}
 
 
+def run_junk(c):
+    """files that only LOOK compressed: every registered magic prefix (and the old 'ZF' marker) followed by junk,
+    and a valid pickle hidden behind a foreign magic: load must return or raise, never hang"""
+    import pickle
+    from joblib import compressor as jc
+    prefixes = [(name, bytes(w.prefix)) for name, w in jc._COMPRESSORS.items()] + [("ZF", bytes(jc._ZFILE_PREFIX))]
+    rng = random.Random(c.get("seed", 0))
+    out = []
+    for name, pre in prefixes:
+        for n in c["lens"]:
+            for kind in ("zeros", "random", "pickle", "self"):
+                if kind == "zeros":
+                    junk = b"\0" * n
+                elif kind == "random":
+                    junk = bytes(rng.getrandbits(8) for _ in range(n))
+                elif kind == "pickle":
+                    junk = pickle.dumps(list(range(n)), protocol=2)
+                else:
+                    junk = pre * (n // max(1, len(pre)) + 1)
+                r = guarded(lambda: joblib.load(io.BytesIO(pre + junk)))
+                code = {"ok": "V", "raises": "R", "hang": "H"}[r[0]]
+                out.append([name, n, kind, code, r[1] if code != "V" else type(r[1]).__name__])
+                if code == "H":
+                    return {"results": out}
+    return {"results": out}
+
+
 class ShortReader:
     """file-like object whose successive read() calls are capped; optionally stops early"""
 
@@ -348,6 +375,8 @@ def main():
                 r = run_readbytes(c)
             elif c["kind"] == "memory":
                 r = run_memory(c)
+            elif c["kind"] == "junk":
+                r = run_junk(c)
             else:
                 r = c13_impl.run_read(c)
         except BaseException as e:  # harness-level failure is reported, not hidden
